@@ -276,6 +276,33 @@ def body_stmt(draw, nm, opts, late, branch_targets, depth=0, in_repeat=False):
     raise AssertionError(k)
 
 
+def add_locals(draw, stmts):
+    """numeric local labels with references from the same scope (the stretch between two ordinary labels)"""
+    bounds = [-1] + [i for i, s_ in enumerate(stmts) if s_["k"] == "label"] + [len(stmts)]
+    extra = []
+    for n, (lo, hi) in enumerate(zip(bounds, bounds[1:])):
+        if hi - lo < 3 or hi - lo > 7 or draw(st.integers(0, 1)):
+            continue
+        pts = [i for i in range(lo + 1, hi + 1) if i in even_points(stmts)]
+        if not pts:
+            continue
+        name = draw(st.sampled_from(["1$", "2$", "10$", "7", "3"]))   # reused across scopes on purpose
+        at = draw(st.sampled_from(pts))
+        use = draw(st.sampled_from(pts))
+        ref = ("loc", name + ":") if not name.endswith("$") else ("loc", name)
+        kind = draw(st.integers(0, 2))
+        if kind == 0:
+            ustmt = {"k": "data", "d": "word", "es": [ref]}
+        elif kind == 1:
+            ustmt = {"k": "insn", "mn": "mov", "ops": [("imm", ref), ("reg", 2)]}
+        else:
+            ustmt = {"k": "insn", "mn": "jmp", "ops": [("rel", ref)]}
+        extra.append((at, {"k": "local", "name": name}))
+        extra.append((use, ustmt))
+    for at, s_ in sorted(extra, key=lambda t: -t[0]):
+        stmts.insert(at, s_)
+
+
 @st.composite
 def byte_only_stmt(draw, nm, opts, late, depth):
     """statements that may stand at any address parity (used with odd link bases)"""
@@ -318,6 +345,8 @@ def file_body(draw, nm, opts, tag):
     for lab in label_at.get(n, []):
         stmts.append({"k": "label", "name": lab, "export": lab in opts.get("exported", ())})
     stmts.append({"k": "insn", "mn": "nop", "ops": []} if not opts.get("byte_only") else {"k": "data", "d": "byte", "es": [("num", 0o240)]})
+    if opts.get("locals") and not opts.get("byte_only"):
+        add_locals(draw, stmts)
     # definitions: count constants and the file's constants, each before or after the body
     late.pop("_tag")
     defs = [{"k": "assign", "name": k, "e": ("num", v)} for k, v in late.items()]
@@ -356,7 +385,7 @@ def program_st(draw, **opts):
         tag = "abc"[f]
         consts = names(f"k{tag}", draw(st.integers(0, 4)))
         labels = names(f"l{tag}", draw(st.integers(1, 5)))
-        aconsts = names(f"a{tag}", draw(st.integers(0, 2))) if opts.get("const_addr") else []
+        aconsts = names(f"v{tag}", draw(st.integers(0, 2))) if opts.get("const_addr") else []
         exp = []
         if nfiles > 1 and opts.get("exports", True):
             exp = [x for x in consts + labels if draw(st.integers(0, 2)) == 0]
